@@ -1,0 +1,21 @@
+// SPDX-FileCopyrightText: 2026 The Pion community <https://pion.ly>
+// SPDX-License-Identifier: MIT
+
+//go:build verif
+
+package rtpbuffer
+
+import "github.com/pion/rtp"
+
+// NewPacketFactoryCopyWithSequencer is NewPacketFactoryCopy with a caller
+// supplied RTX sequencer (the default one starts at a random number).
+// Verification hook, only compiled with the "verif" build tag.
+func NewPacketFactoryCopyWithSequencer(s rtp.Sequencer) *PacketFactoryCopy {
+	f := NewPacketFactoryCopy()
+	f.rtxSequencer = s
+
+	return f
+}
+
+// VerifSequenceNumber returns the sequence number the packet is stored under.
+func (p *RetainablePacket) VerifSequenceNumber() uint16 { return p.sequenceNumber }
